@@ -378,7 +378,42 @@ def rule_r4(repo):
         if not ok:
             rr.fail('TableD.__init__:forward-reference', init.where, 'a sequence referring to a sequence defined later in the table is not resolved to that very '
                     'sequence with its members (%s)' % (r.describe() if not r.ok else sorted(d) if isinstance(d, dict) else d))
-    rr.require_floor(8)
+    # forward references at every nesting position: directly, under one and under two replications, behind another forward reference
+    table = {
+        '300001': ['A', ['300009', '001001']],
+        '300002': ['B', ['101002', '300009']],
+        '300003': ['C', ['102000', '031001', '001001', '300009']],
+        '300004': ['D', ['103002', '001001', '101000', '031001', '300009', '012101']],
+        '300005': ['E', ['300001', '300004']],
+        '300006': ['F', ['104002', '001001', '102003', '101002', '300008', '012101', '001002']],
+        '300008': ['G', ['300009', '012101']],
+        '300009': ['H', ['001002', '012101']],
+    }
+
+    class TD2(TD):
+        def on_call(self2, text, callee, args, kwargs, node, frame):
+            if text == 'self.load_json_files' or (isinstance(callee, FuncRef) and callee.fi.name == 'load_json_files'):
+                return [dict(table)]
+            return TD.on_call(self2, text, callee, args, kwargs, node, frame)
+    it = TD2(repo, 'TableD')
+    res = it.run_function(init, lambda: {'self': Obj('TableD', {}), 'b': Table('B', B_DEFINED), 'c': Table('C', ()), 'r': Table('R', ()), 'args': ('K',), 'kwargs': {}},
+                          self_class='TableD')
+    fm = repo.func('descriptors', 'flat_member_ids')
+    for r in res:
+        d = r.locals['self'].fields.get('descriptors') if r.ok else None
+        if not isinstance(d, dict) or set(d) != set(int(k) for k in table):
+            rr.fail('TableD.__init__:forward-reference', init.where, 'a table with forward references is loaded as %s' % (r.describe() if not r.ok else sorted(d) if isinstance(d, dict) else d))
+            continue
+        for key in sorted(table):
+            want = _expand_reference(table, key)
+            it2 = BuildInterp(repo, None)
+            r2 = it2.run_function(fm, lambda: {'descriptor': d[int(key)]})
+            got = r2[0].value if len(r2) == 1 and r2[0].ok else [x.describe() for x in r2]
+            rr.instance('sequence %s with a forward reference %s' % (key, table[key][1]))
+            if got != want:
+                rr.fail('TableD.__init__:forward-reference', init.where, 'sequence %s = %s (a sequence defined later in the file is referenced at this nesting position) '
+                        'flattens to %s; the table expands to %s' % (key, table[key][1], got, want), witness={'sequence': key})
+    rr.require_floor(16)
     return rr
 
 
@@ -595,6 +630,13 @@ def run(repo, check):
     from sa.rules import c13 as _c13
     from sa.rules.common import share as _sh
     _sh(check, repo, _c13.rule_r7, 'C14.R8', 'table entries are not pooled across table versions: no module-level state (shared with C13.R7)')
+    from sa.rules import c12 as _c12, c20 as _c20
+    _sh(check, repo, _c12.rule_descriptor_list, 'C14.R10', 'the descriptor list of section 3 reaches the template entry by entry: an entry that is in no table is not dropped '
+        '(shared with C12.R12)', args=('C14.R10',))
+    _sh(check, repo, _c20.rule_r3, 'C14.R11', 'the repair of NCEP replication-only sequences leaves every well-formed sequence and replication as FM-94 reads it '
+        '(shared with C20.R3)')
+    _sh(check, repo, _c12.rule_r7, 'C14.R12', 'a descriptor that is in no table is refused with UnknownDescriptor at every position of the template, the factor position '
+        'of a delayed replication included (shared with C12.R7)')
     check.assumptions = ['the contents of the bundled Table B / D files are data and are not decided (a lint of the 40 table directories found replication '
                          'over-runs in 3 sequences; not claimed)',
                          'the tables are abstracted as lookup oracles; TableR.lookup is the repository\'s own code']
